@@ -143,8 +143,8 @@ def obligations(chk):
         else:
             chk.add(Ob(func, "result-is-the-type-with-every-wrapper-layer-removed", pid, hy, z3.BoolVal(False),
                        {"outcome": out.kind, "why": str(out.value if out.kind == "unsupported" else out.exc.exc_cls)}))
-    if n_ret == 0:
-        chk.errors.append("unwrap: no returning path explored")
+    # (a function none of whose paths returns fails the driver's `some-call-returns-normally` clause: a named violation, not a
+    #  checker failure - seeds C09-8 / C17-8 were at first lost behind an exit 3 here)
     chk.add(Ob(func, "cover", "pre", cover_hyps(results), z3.BoolVal(True), expect="sat"))
     # lemma (induction on wrapper depth): base is idempotent
     t = z3.Const("t_ind", Val)
